@@ -19,7 +19,7 @@ ASSUMPTIONS = ['pty slave in raw mode (no tty processing), so the received bytes
                'short writes are not injected: blocking pty/pipe/socket writes complete on Linux']
 REQUIRED_FLAGS = {'all_bytes': 1, 'non_ascii_text': 1, 'text_in_bytes_mode': 1, 'large': 1, 'control': 1, 'stateful_bom': 1}
 
-BIG = 100000
+BIG = 300000
 CONTROL = list('abcdefghijklmnopqrstuvwxyz') + list('ABZ') + ['@', '`', '[', '{', '\\', '|', ']', '}', '^', '~', '_', '?']
 
 
@@ -82,10 +82,14 @@ def run_seq(task, seq, mode, big=False):
         enc = None if mode == 'bytes' else mode
         link = TR.Link(env, task['transport'], timeout=5, encoding=enc)
         sp = link.sp
+        if big and link.sock is not None:
+            # a socket with its own timeout set (not plain blocking): a single send() may then be partial
+            link.sock._s.settimeout(30.0)
         drain = TR.Drain(link) if big else None
         pl = dict(payloads(mode)) if not big else {}
-        pl['big'] = (bytes((i * 7 + 3) % 251 for i in range(BIG)) if mode == 'bytes'
-                     else ''.join(chr(0x61 + (i % 26)) if i % 5 else '€' for i in range(BIG)))
+        nbig = BIG if task['transport'] in ('socket', 'fd-select', 'fd-poll') else BIG // 3
+        pl['big'] = (bytes((i * 7 + 3) % 251 for i in range(nbig)) if mode == 'bytes'
+                     else ''.join(chr(0x61 + (i % 26)) if i % 5 else '€' for i in range(nbig)))
         encoder = codecs.getincrementalencoder(enc)() if enc else None
         linesep = os.linesep
 
